@@ -884,105 +884,19 @@ def defaults_of(fn) -> dict:
 
 READOUT_FILE, READOUT_CLASS = "pyxel/exposure/readout.py", "Readout"
 
-_GUARD_SHAPES = {
-    "GFirstZero": {"T[0] == 0", "0 == T[0]", "T[0] == 0.0", "0.0 == T[0]", "not T[0]", "not T[0] != 0"},
-    "GStartGeFirst": {"S >= T[0]", "T[0] <= S", "not S < T[0]", "not T[0] > S"},
-    "GNotIncreasing": {"not np.all(np.diff(T) > 0)", "not (np.diff(T) > 0).all()", "np.any(np.diff(T) <= 0)",
-                       "(np.diff(T) <= 0).any()", "not np.all(T[1:] > T[:-1])", "np.any(T[1:] <= T[:-1])",
-                       "not np.all(np.diff(T) > 0.0)", "np.any(np.diff(T) <= 0.0)"},
-}
-
-
 RP_FILE, RP_CLASS = "pyxel/detectors/readout_properties.py", "ReadoutProperties"
-# a refusal that can never fire on a schedule given as a flat list (the model's schedules are lists)
-_HARMLESS_GUARDS = {"T.ndim != 1", "np.ndim(T) != 1", "T.ndim > 1", "not T.ndim == 1"}
-
-
-def _norm_guard(test: ast.AST, aliases=()) -> str:
-    class T(ast.NodeTransformer):
-        def visit_Attribute(s, n):  # noqa: N802, N805
-            if isinstance(n.value, ast.Name) and n.value.id == "self" and n.attr in ("_times", "times"):
-                return ast.Name(id="T", ctx=ast.Load())
-            if isinstance(n.value, ast.Name) and n.value.id == "self" and n.attr in ("_start_time", "start_time"):
-                return ast.Name(id="S", ctx=ast.Load())
-            return s.generic_visit(n)
-
-        def visit_Name(s, n):  # noqa: N802, N805
-            if n.id in aliases:
-                return ast.Name(id="T", ctx=ast.Load())
-            return ast.Name(id="S", ctx=ast.Load()) if n.id == "start_time" else n
-
-    import copy
-    return ast.unparse(ast.fix_missing_locations(T().visit(copy.deepcopy(test))))
-
-
-def _ends_with_raise(body) -> bool:
-    return bool(body) and isinstance(body[-1], ast.Raise)
-
-
-def _chain(st: ast.If):
-    """[(test, body), ...], final else body (or [])."""
-    links = []
-    while True:
-        links.append((st.test, st.body))
-        if len(st.orelse) == 1 and isinstance(st.orelse[0], ast.If):
-            st = st.orelse[0]
-        else:
-            return links, st.orelse
-
-
-def _array_aliases(fn) -> set:
-    """`times` and the locals that hold it as an array (`times_1d = np.array(times, dtype=float)`)."""
-    out = {"times"}
-    for st in fn.body:
-        if isinstance(st, (ast.Assign, ast.AnnAssign)) and isinstance(st.value, ast.Call):
-            tg = st.targets[0] if isinstance(st, ast.Assign) else st.target
-            if isinstance(tg, ast.Name) and (dotted(st.value.func) or "").split(".")[-1] in ("array", "asarray", "asanyarray") \
-                    and st.value.args and isinstance(st.value.args[0], ast.Name) and st.value.args[0].id in out:
-                out.add(tg.id)
-    return out
 
 
 def readout_guards(repo: Path, file=None, cls=None, local_aliases=False) -> dict:
     """The refusals of Readout.__init__ (or, with file / cls, of the detector's ReadoutProperties.__init__, which
-    every run goes through again) that concern the schedule: which of the three guards are present, and whether
-    an empty `times` is refused before them.  Any other refusal that mentions the times / start time is a shape
-    this translator does not know: fail closed."""
-    from .common import body_no_doc, find_func
+    every run goes through again) that concern the schedule: which of the three guards are present on EVERY accepting
+    path of the constructor, and whether an empty `times` is refused.  Read by paths (translator/c17_guards.py): helper
+    calls followed, aliases substituted, guard clauses == if/elif chains, match == if/elif, inverted tests.  A test on the
+    times / start time that is not the passing side of a known refusal: fail closed."""
+    from . import c17_guards
 
-    READOUT_FILE, READOUT_CLASS = file or globals()["READOUT_FILE"], cls or globals()["READOUT_CLASS"]
-    tree = parse(repo, READOUT_FILE)
-    fn = find_func(tree, "__init__", cls=READOUT_CLASS)
-    aliases = _array_aliases(fn) if local_aliases else ()
-    guards, empty_refused = [], False
-    for st in body_no_doc(fn):
-        if not isinstance(st, ast.If):
-            continue
-        links, orelse = _chain(st)
-        tests = [_norm_guard(t, aliases) for t, _ in links]
-        mentions_schedule = any(("T" in {n.id for n in ast.walk(ast.parse(t, mode="eval")) if isinstance(n, ast.Name)}
-                                 or "S" in {n.id for n in ast.walk(ast.parse(t, mode="eval")) if isinstance(n, ast.Name)})
-                                for t in tests)
-        if not mentions_schedule:
-            # the chain that chooses where the times come from: an empty / missing `times` is refused when the
-            # `times` link is a truthiness test and the chain ends in a raise
-            names = [t for t in tests]
-            if "times" in names and _ends_with_raise(orelse):
-                empty_refused = True
-            continue
-        for (test, body), text in zip(links, tests):
-            if not _ends_with_raise(body):
-                raise TranslationError(f"{READOUT_FILE}:{test.lineno}: a branch on the readout times that does not raise: {text}")
-            if text in _HARMLESS_GUARDS:
-                continue
-            kind = next((k for k, shapes in _GUARD_SHAPES.items() if text in shapes), None)
-            if kind is None:
-                raise TranslationError(f"{READOUT_FILE}:{test.lineno}: readout guard of an unknown shape: {text}")
-            if kind not in guards:
-                guards.append(kind)
-        if orelse and not all(isinstance(x, (ast.Pass, ast.Expr)) for x in orelse):
-            raise TranslationError(f"{READOUT_FILE}:{st.lineno}: else-branch of a readout guard does something")
-    return dict(guards=guards, empty_refused=empty_refused)
+    r = c17_guards.readout_guards(Path(repo), file or READOUT_FILE, cls or READOUT_CLASS, bool(local_aliases))
+    return dict(guards=r["guards"], empty_refused=r["empty_refused"])
 
 
 # ------------------------------------------------------------------------------------------ rendering
